@@ -452,6 +452,68 @@ func genPersist(hl, mb *pkgFiles, hdr, out string) {
 	}
 	b.WriteString("/-- `FlatNews.Write`: (right-hand side assigned to f.data, data argument of os.WriteFile) -/\n")
 	fmt.Fprintf(&b, "def flatNewsWriteShape : String × String := (%s, %s)\n\n", leanStr(assign), leanStr(written))
+	// ---- store methods: is the whole body under the store's own lock?
+	b.WriteString("/-- Methods of the flat stores: (method, body is `m.Lock(); defer m.Unlock(); …` – i.e. the lock is taken before\n")
+	b.WriteString("    anything else, in particular before the file is read in Reload) -/\n")
+	b.WriteString("def storeLockFirst : List (String × Bool) := [\n")
+	type sm struct{ recv, name string }
+	sms := []sm{{"Agreement", "Read"}, {"Agreement", "Reload"}, {"FlatNews", "Read"}, {"FlatNews", "Reload"}, {"FlatNews", "Write"}}
+	for i, m := range sms {
+		okShape := false
+		if fd := findFunc(mb, m.recv, m.name); fd != nil && fd.Body != nil && len(fd.Body.List) >= 2 {
+			if es, ok := fd.Body.List[0].(*ast.ExprStmt); ok {
+				t := src(es.X)
+				if strings.HasSuffix(t, ".Lock()") {
+					if ds, ok := fd.Body.List[1].(*ast.DeferStmt); ok && src(ds.Call) == strings.TrimSuffix(t, ".Lock()")+".Unlock()" {
+						okShape = true
+					}
+				}
+			}
+		}
+		fmt.Fprintf(&b, "  (%s, %v)", leanStr("mobius."+m.recv+"."+m.name), okShape)
+		if i < len(sms)-1 {
+			b.WriteString(",")
+		}
+		b.WriteString("\n")
+	}
+	b.WriteString("]\n\n")
+
+	// ---- HandleTranOldPostNews: a failed PostMessageBoard must end the handler (no announcement, no reply)
+	postErr := "not-found"
+	if fd := findFunc(mb, "", "HandleTranOldPostNews"); fd != nil {
+		for i, st := range fd.Body.List {
+			if !strings.Contains(src(st), "PostMessageBoard(") {
+				continue
+			}
+			var guard *ast.IfStmt
+			if is, ok := st.(*ast.IfStmt); ok { // if err := …PostMessageBoard(…); err != nil { … }
+				guard = is
+			} else if i+1 < len(fd.Body.List) { // err := …PostMessageBoard(…); if err != nil { … }
+				if is, ok := fd.Body.List[i+1].(*ast.IfStmt); ok {
+					guard = is
+				}
+			}
+			postErr = "unchecked"
+			if guard != nil && strings.Contains(src(guard.Cond), "err != nil") {
+				postErr = "logged-only"
+				if n := len(guard.Body.List); n > 0 {
+					if _, ok := guard.Body.List[n-1].(*ast.ReturnStmt); ok {
+						postErr = "returns"
+					}
+				}
+			}
+			// SendAll must come after the post statement
+			for _, later := range fd.Body.List[:i] {
+				if strings.Contains(src(later), "SendAll(") {
+					postErr = "announces-before-posting"
+				}
+			}
+			break
+		}
+	}
+	b.WriteString("/-- `HandleTranOldPostNews`: what happens when `PostMessageBoard` reports an error\n")
+	b.WriteString("    (`returns` = the handler ends there: nothing is announced or acknowledged) -/\n")
+	fmt.Fprintf(&b, "def postErrorHandling : String := %s\n\n", leanStr(postErr))
 	b.WriteString("end Mobius.Generated\n")
 	writeIfChanged(filepath.Join(out, "Persist.lean"), b.String())
 }
